@@ -49,9 +49,20 @@ RULE = ("chunks: exhaustive grid (format b h i f d x byte-order spelling x size 
         "advance x length of the other generator) plus random groups of 2-3 generators (same / different "
         "strategy, dfmt, size, byte order; WavStreams over the same / different files) with random schedules, "
         "re-entrant sources, re-chunking pipelines, partial consumption and malformed members; "
+        "extremes: every integer format x size 1..3 x length 1..2*size+1 x EVERY position (and the pad value) x {lo, hi, lo-1, "
+        "hi+1} x both strategies; wavcall: 16 spellings of keep x 9 call shapes (positional / keyword / both keywords in "
+        "both orders / three positionals / keep twice / no file / unknown keywords) + keep omitted; counted: width x "
+        "channels x 0/1/2/4 frames x every k in 0..n+2 with a byte-counting file object; "
         "non-trivial = at least one item in the input sequence / one sample in the file / one event in the history "
         "(concurrent: in some generator); distinct = distinct JSON case")
 TRUSTED = [
+    "call layer (ALV/Model/C18Call.lean): the binding of WavStream(*pos, **kw) to (wave_file, keep=False) is C08's "
+    "model of Python's argument binding, the truth value of what was passed for keep is PyV.truthy (Float != 0.0 for "
+    "floats: trusted), the seven spellings of byte_order are OrderArg; all three are compared with the real calls",
+    "bytes taken from the file: counted by a BytesIO subclass whose read() adds up what it hands out, between the end "
+    "of the constructor and the end of the k next() calls; the model's bytesRead is the data-chunk part, alignByte "
+    "the one alignment byte wave's _Chunk.read takes along with the last frame of an odd-sized chunk (the tie "
+    "accepts it only then, and only if the file has that byte)",
     "hand-written Lean model ALV/Model/C18.lean of lazy_io.chunks (struct and array strategies) and "
     "lazy_wav.WavStream (modelled, not verified: struct.Struct, array.array, wave.Wave_read.readframes, "
     "generator protocol, try/finally)",
@@ -69,7 +80,8 @@ TRUSTED = [
     "when the stream object is gone) or, unpatched, the ResourceWarnings; 'collect' is `del` + gc.collect() "
     "(WavStream sits in a reference cycle: dropping the last reference alone closes nothing -- tallied, not demanded)",
     "RIFF container (ALV/Model/C18Riff.lean): hand-written model of Wave_read.initfp / _Chunk (not proved against "
-    "a specification of RIFF beyond the small theorems C18.27-28; riff_parse_build_PENDING is stated, not proved); "
+    "a specification of RIFF; theorem riff_parse_build: every file of the builder buildRiff -- any extra chunks before / "
+    "between / after fmt and data, odd sizes padded -- is read back exactly, by induction on the chunk lists); "
     "it is run by the driver on the bytes of every file of the res cases and of the own-writer wav cases and must "
     "agree with the real wave module on header fields, data chunk and the exception class of a refused file",
     "the byte layout of the PCM files is produced by the standard `wave` module (or the harness' RIFF writer, "
@@ -121,8 +133,9 @@ MANIFEST = {
              "theorems take the element encoder as a parameter; the driver's Float.toBits / toFloat32 bytes are "
              "compared with struct.pack on every float case).  The resource theorems are about the modelled state "
              "machine (wave.open, Wave_read.close/__del__, generator finalisation), tied state by state to real "
-             "descriptors.  riff_parse_build_PENDING (every well-formed file is read back exactly) is stated, not "
-             "proved.  chunks.array in /repo was defective (D5, D5b: fixed); its "
+             "descriptors.  The RIFF reader is proved to read back every file of the Lean builder "
+             "(riff_parse_build); that the builder writes what real files look like is checked by the tie only.  "
+             "chunks.array in /repo was defective (D5, D5b: fixed); its "
              "model is the repaired code.  Independence of a generator from other live generators is true by "
              "construction in the (pure) model and is checked for /repo by single-threaded interleavings only; "
              "races that need a pre-emptive thread switch inside one call are not observable by the tie."),
